@@ -399,9 +399,12 @@ def run(ctx: Ctx):
         oracle(ctx, o)
         runner.add(o)
     runner.finish()
+    L.special_stream(ctx, ctx.scale(150, 3000), "", reject_intact=False)
 
 
 def replay(ctx: Ctx, case) -> bool:
+    if case.get("special"):
+        return L.special_replay(case, "", reject_intact=False)
     world = L.World(G.parse_spec(case["spec"]), G.parse_env(case["env"]))
     o = L.observe(world, G.parse_op(case["op"]), "replay")
     sub = Ctx(ctx.prop, ctx.tier, ctx.seed, False)
